@@ -1846,6 +1846,10 @@ fn templates() -> Vec<Vec<Stmt>> {
             // a batch left nothing pending; a selector; an effect that disposes its own scope
             vec![Signal(0), Selector(EqK::Parity, vec![Read(0)]), Effect(vec![Read(1)]), Batch(vec![s_set(0, 1), s_set(0, 3)]), Scope(vec![Effect(vec![Read(0), DisposeCur])]), s_set(0, 4)],
         ];
+        // cleanups that register cleanups / create computations with cleanups in the IMPLICIT scope while the root goes away
+        let mut first = first;
+        first.push(vec![Signal(0), Effect(vec![Read(0), Cleanup(vec![Cleanup(vec![Signal(7)]), Signal(3), Effect(vec![Cleanup(vec![Signal(8)])])])])]);
+        first.push(vec![Signal(1), Scope(vec![Cleanup(vec![Cleanup(vec![]), Scope(vec![Cleanup(vec![Cleanup(vec![])])])])])]);
         let second: Vec<Vec<Stmt>> = vec![
             vec![Signal(5), Memo(vec![Read(0)]), Effect(vec![Read(1)]), s_set(0, 6), Use(0), Use(1)],
             vec![Provide(0, Ex::C(1)), Signal(0), Scope(vec![Effect(vec![Read(0), Use(0)])]), s_set(0, 1), Reinit, Signal(3), Use(0)],
